@@ -56,16 +56,16 @@ const SupportPath = ir.SupportPath
 
 // KOpts steers the configuration generator.
 type KOpts struct {
-	Types        []string // nil = draw
-	NoFieldOpts  bool
-	NoTimeType   bool
-	Rich         bool // C10/C14: many entries in every map
-	SetTarget    bool // same-package: still set target_package_name explicitly
-	NoExclude    bool
-	NoCustom     bool
-	NoInjected   bool
-	OnlyCLI      bool // C16: restrict to the nine two-channel options
-	Sort         *bool
+	Types       []string // nil = draw
+	NoFieldOpts bool
+	NoTimeType  bool
+	Rich        bool // C10/C14: many entries in every map
+	SetTarget   bool // same-package: still set target_package_name explicitly
+	NoExclude   bool
+	NoCustom    bool
+	NoInjected  bool
+	OnlyCLI     bool // C16: restrict to the nine two-channel options
+	Sort        *bool
 }
 
 func nonEmpty(f *ir.File) []string {
@@ -78,12 +78,20 @@ func nonEmpty(f *ir.File) []string {
 	return out
 }
 
-// DrawTypes draws a non-empty subset of the non-empty messages.
+// DrawTypes draws a non-empty subset of the non-empty messages. The message
+// declared last by the generator (the one with the deepest reference graph) is
+// usually among them.
 func DrawTypes(t *rapid.T, f *ir.File) []string {
 	c := nonEmpty(f)
+	deepest, best := "", -1
+	for _, n := range c {
+		if d := refDepth(f, n, 0); d > best {
+			deepest, best = n, d
+		}
+	}
 	var out []string
 	for _, n := range c {
-		if rapid.Bool().Draw(t, "type?") {
+		if (n == deepest && rapid.IntRange(0, 5).Draw(t, "deepest?") != 0) || rapid.IntRange(0, 2).Draw(t, "type?") == 0 {
 			out = append(out, n)
 		}
 	}
@@ -91,6 +99,22 @@ func DrawTypes(t *rapid.T, f *ir.File) []string {
 		out = []string{rapid.SampledFrom(c).Draw(t, "type1")}
 	}
 	return out
+}
+
+func refDepth(f *ir.File, name string, guard int) int {
+	m := f.Msg(name)
+	if m == nil || guard > 12 {
+		return 0
+	}
+	d := 0
+	for _, fl := range m.Fields {
+		if fl.Kind == ir.KMessage {
+			if x := 1 + refDepth(f, fl.Type, guard+1); x > d {
+				d = x
+			}
+		}
+	}
+	return d
 }
 
 func applyLayout(c *ir.Config, l *ir.Layout, setTarget bool) {
@@ -274,7 +298,7 @@ func FieldOptions(t *rapid.T, f *ir.File, c *ir.Config, o KOpts) {
 		cts := []string{"StringCustom", "github.com/acme/api/wrappers.Traits", "wrappers.Labels", "a/b.C"}
 		for i, oc := range occ {
 			fl := oc.Field
-			if oc.Embed || isExcluded(oc) || oc.FullKey == "" || fl.Oneof != "" || fl.Card == ir.Map || fl.CustomType != "" {
+			if oc.Embed || isExcluded(oc) || oc.FullKey == "" || fl.Oneof != "" || fl.Card == ir.Map || fl.CustomType != "" || fl.Kind == ir.KMessage {
 				continue
 			}
 			// A Message.Field exclusion/override of the same field elsewhere is unaffected.
